@@ -95,9 +95,8 @@ def rule_effects(facts, rep):
     r = facts.body("anstyle", "anstyle::reset::RESET")
     rep.check(hir.lit_val(ac.single_expr(r["hir"])) == "\x1b[0m", "effects", r["path"], "is-ESC[0m", "", loc(r))
     rd = facts.body("anstyle", "<anstyle::reset::Reset as core::fmt::Display>::fmt")
-    e = ac.single_expr(rd["hir"])
-    rep.check(hir.is_call(e, "core::fmt::Formatter::<'a>::write_str") and hir.is_def(e["args"][1], "reset::RESET"), "effects", rd["path"],
-              "writes-RESET", "", loc(rd))
+    ok_, found_ = ac.reset_display_ok(facts)
+    rep.check(ok_, "effects", rd["path"], "writes-RESET", f"Display for Reset writes ESC[0m verbatim, once, with no padding: {found_}", loc(rd))
 
 
 def rule_io_path(facts, rep):
